@@ -540,34 +540,43 @@ class Check:
         return self.proof_failed is None
 
     def thorough_proof(self, prop_files):
-        """thorough tier: rebuild the cone from scratch in a fresh directory and
-        run coqchk on the property files"""
+        """thorough tier: copy exactly the dependency cone of the property files
+        (working-tree sources, generated tables included) to a fresh directory,
+        rebuild it from scratch with coq_makefile + make (full .vo) and re-check
+        the property files with coqchk, collecting the axioms it reports"""
         fresh = os.path.join(CACHE, 'fresh_%s' % self.prop)
         shutil.rmtree(fresh, ignore_errors=True)
         os.makedirs(fresh)
-        rc, out = sh('git -C %s ls-files coq | grep -v "^coq/model_" ' % ROOT)
-        for rel in out.split():
-            dst = os.path.join(fresh, rel[len('coq/'):])
+        files = _coq_files()
+        deps = _coq_deps(files)
+        cone = []
+        def visit(v):
+            if v in cone:
+                return
+            for d in deps.get(v, []):
+                visit(d)
+            cone.append(v)
+        for f in prop_files:
+            visit('Properties/%s.v' % f)
+        for v in cone:
+            dst = os.path.join(fresh, v)
             os.makedirs(os.path.dirname(dst), exist_ok=True)
-            shutil.copy(os.path.join(ROOT, rel), dst)
-        # generated tables, if any
-        for dp, _, fs in os.walk(COQ):
-            if os.path.basename(dp) == 'Generated':
-                for fn in fs:
-                    if fn.endswith('.v'):
-                        dst = os.path.join(fresh, os.path.relpath(os.path.join(dp, fn), COQ))
-                        os.makedirs(os.path.dirname(dst), exist_ok=True)
-                        shutil.copy(os.path.join(dp, fn), dst)
+            shutil.copy(os.path.join(COQ, v), dst)
+        with open(os.path.join(fresh, '_CoqProject'), 'w') as fh:
+            fh.write('-Q . FendV\n-arg -w -arg %s\n' % COQ_WARN)
+            fh.write('\n'.join(cone) + '\n')
         targets = ['Properties/%s.vo' % f for f in prop_files]
         rc, out = sh('coq_makefile -f _CoqProject -o Makefile && make -j%d %s' % (NPROC, ' '.join(targets)), cwd=fresh, timeout=7200)
-        res = {'fresh_rebuild': rc == 0}
+        res = {'fresh_rebuild': rc == 0, 'cone_files': len(cone)}
         if rc != 0:
             self.proof_failed = {'stage': 'fresh-rebuild', 'where': fresh, 'log': out[-3000:]}
+            self.extra['thorough_proof'] = res
             return res
         rc, out = sh(['coqchk', '-silent', '-o', '-Q', fresh, 'FendV'] + ['FendV.Properties.%s' % f for f in prop_files],
                      cwd=fresh, timeout=7200)
         res['coqchk'] = rc == 0
-        res['coqchk_axioms'] = re.findall(r'^\s*(?:\* )?Axioms?:\s*(.*)$', out, re.M)[:5] + [l.strip() for l in out.splitlines() if l.strip().startswith('-') or 'axiom' in l.lower()][:20]
+        m = re.search(r'\* Axioms:(.*?)(\n\s*\n|\* |$)', out, re.S)
+        res['coqchk_axioms'] = (m.group(1).strip() if m else out[-600:].strip())[:1500]
         if rc != 0:
             self.proof_failed = {'stage': 'coqchk', 'where': fresh, 'log': out[-3000:]}
         shutil.rmtree(fresh, ignore_errors=True)
